@@ -74,6 +74,11 @@ func (m *Mutex) Unlock() {
 	}
 	vrt.RaceRelease(unsafe.Pointer(m))
 	m.held = false
+	if vrt.Opt.UnlockPoints {
+		// a point after the release: what follows an Unlock is no longer covered by the lock and may
+		// interleave with threads that take it now
+		vrt.Point(vrt.OpUnlock, nil)
+	}
 }
 
 // ------------------------------------------------------------------ RWMutex
@@ -149,6 +154,9 @@ func (m *RWMutex) Unlock() {
 	}
 	vrt.RaceRelease(unsafe.Pointer(&m.rsem))
 	m.writer = false
+	if vrt.Opt.UnlockPoints {
+		vrt.Point(vrt.OpUnlock, nil)
+	}
 }
 
 //go:norace
@@ -192,6 +200,9 @@ func (m *RWMutex) RUnlock() {
 	}
 	vrt.RaceReleaseMerge(unsafe.Pointer(&m.wsem))
 	m.readers--
+	if vrt.Opt.UnlockPoints {
+		vrt.Point(vrt.OpUnlock, nil)
+	}
 }
 
 type rlocker RWMutex
